@@ -497,13 +497,33 @@ pub struct Explore {
     pub faults: bool,
     pub max_states: usize,
     pub label: String,
+    /// hand every reached node back to the caller (else a 1-in-1000 sample for the self-check)
+    pub keep_all: bool,
 }
 
 /// Level-synchronous BFS from `roots` over `steps`.
+/// Resident set size of this process in MiB (Linux).
+pub fn rss_mib() -> u64 {
+    std::fs::read_to_string("/proc/self/statm")
+        .ok()
+        .and_then(|s| s.split_whitespace().nth(1).and_then(|x| x.parse::<u64>().ok()))
+        .map(|pages| pages * 4096 / (1 << 20))
+        .unwrap_or(0)
+}
+
+pub const RSS_CAP_MIB: u64 = 20 * 1024;
+
 pub fn bfs<S: Sch>(roots: Vec<Node<S>>, steps: &[Step], ex: &Explore, rep: &mut Report) -> Vec<Node<S>> {
     let ctx = Ctx::<S>::new();
     let mut seen: HashMap<MState, u64> = HashMap::new();
-    let mut all: Vec<Node<S>> = vec![];
+    // nodes handed back to the caller: all of them when `keep_all`, else a deterministic sample
+    let mut kept: Vec<Node<S>> = vec![];
+    let mut n_seen_total = 0usize;
+    let mut keep = |n: Node<S>, kept: &mut Vec<Node<S>>, idx: usize| {
+        if ex.keep_all || idx % 1000 == 0 {
+            kept.push(n);
+        }
+    };
     let mut frontier: Vec<Node<S>> = vec![];
     for r in roots {
         let h = obs_digest(&r.obs);
@@ -516,70 +536,103 @@ pub fn bfs<S: Sch>(roots: Vec<Node<S>>, steps: &[Step], ex: &Explore, rep: &mut 
     for n in &frontier {
         rep.viols.extend(state_checks::<S>(n));
     }
-    let mut capped = false;
+    let mut capped: Option<String> = None;
     for depth in 1..=ex.depth {
-        let outs: Vec<TOut<S>> = frontier
-            .par_iter()
-            .flat_map_iter(|n| steps.iter().map(move |s| (n, s)))
-            .map(|(n, s)| transition::<S>(n, s, &ctx, ex.faults))
-            .collect();
+        let last = depth == ex.depth;
         let mut nextf: Vec<Node<S>> = vec![];
         let mut ntrans = 0u64;
-        for o in outs {
-            ntrans += 1;
-            rep.stats.evaluations += o.executions;
-            for c in o.classes {
-                rep.stats.class(c);
+        let mut nnew = 0u64;
+        // the frontier is processed in chunks so that memory stays proportional to the chunk
+        let chunk = (200_000 / steps.len().max(1)).max(16);
+        let cur = std::mem::take(&mut frontier);
+        for part in cur.chunks(chunk) {
+            if capped.is_some() {
+                break;
             }
-            rep.viols.extend(o.viols);
-            if let Some(n) = o.next {
-                let h = obs_digest(&n.obs);
-                match seen.get(&n.m) {
-                    Some(prev) => {
-                        rep.stats.class("merge");
-                        if *prev != h {
-                            rep.viols.push(Viol {
-                                prop: "C08",
-                                sig: format!("C08|{}|path-independence|{}", S::NAME, n.hist.last().map(|s| s.act.label()).unwrap_or_default()),
-                                what: "two histories reach the same (owner, seq, pairs) but the records observe differently".into(),
-                                rank: n.hist.len(),
-                                replay: replay_json::<S>(&n.init, &n.init_hex, &n.hist, json!({"clause": "path independence"})),
-                            });
+            let outs: Vec<TOut<S>> = part
+                .par_iter()
+                .flat_map_iter(|n| steps.iter().map(move |s| (n, s)))
+                .map(|(n, s)| transition::<S>(n, s, &ctx, ex.faults))
+                .collect();
+            let mut fresh: Vec<Node<S>> = vec![];
+            for o in outs {
+                ntrans += 1;
+                rep.stats.evaluations += o.executions;
+                for c in o.classes {
+                    rep.stats.class(c);
+                }
+                rep.viols.extend(o.viols);
+                if let Some(n) = o.next {
+                    let h = obs_digest(&n.obs);
+                    match seen.get(&n.m) {
+                        Some(prev) => {
+                            rep.stats.class("merge");
+                            if *prev != h {
+                                rep.viols.push(Viol {
+                                    prop: "C08",
+                                    sig: format!("C08|{}|path-independence|{}", S::NAME, n.hist.last().map(|s| s.act.label()).unwrap_or_default()),
+                                    what: "two histories reach the same (owner, seq, pairs) but the records observe differently".into(),
+                                    rank: n.hist.len(),
+                                    replay: replay_json::<S>(&n.init, &n.init_hex, &n.hist, json!({"clause": "path independence"})),
+                                });
+                            }
                         }
-                    }
-                    None => {
-                        if seen.len() >= ex.max_states {
-                            capped = true;
-                            continue;
+                        None => {
+                            if seen.len() >= ex.max_states {
+                                capped = Some(format!("state cap {} reached", ex.max_states));
+                                continue;
+                            }
+                            seen.insert(n.m.clone(), h);
+                            if rep.stats.samples.len() < 6 {
+                                rep.stats.sample(json!({"scheme": S::NAME, "init": *n.init, "history": n.hist.iter().map(|s| format!("{}@k{}", s.act.label(), s.signer)).collect::<Vec<_>>() }));
+                            }
+                            fresh.push(n);
                         }
-                        seen.insert(n.m.clone(), h);
-                        if rep.stats.samples.len() < 6 {
-                            rep.stats.sample(json!({"scheme": S::NAME, "init": *n.init, "history": n.hist.iter().map(|s| format!("{}@k{}", s.act.label(), s.signer)).collect::<Vec<_>>() }));
-                        }
-                        nextf.push(n);
                     }
                 }
             }
-        }
-        // per-state checks (C03 sweep, C04 round trips, reference decode, C11 cross-decode) once per new state
-        let sv: Vec<Vec<Viol>> = nextf.par_iter().map(|n| state_checks::<S>(n)).collect();
-        for v in sv {
-            rep.viols.extend(v);
+            // per-state checks (C03 sweep, C04 round trips, reference decode, C11 cross-decode) once per new state
+            let sv: Vec<Vec<Viol>> = fresh.par_iter().map(|n| state_checks::<S>(n)).collect();
+            for v in sv {
+                rep.viols.extend(v);
+            }
+            nnew += fresh.len() as u64;
+            for n in fresh {
+                n_seen_total += 1;
+                if last {
+                    // states of the last level are never expanded: checked above, then dropped
+                    keep(n, &mut kept, n_seen_total);
+                } else {
+                    nextf.push(n);
+                }
+            }
+            rep.compact_if_large();
+            let rss = rss_mib();
+            if rss > RSS_CAP_MIB {
+                capped = Some(format!("resident memory cap {} MiB reached ({} MiB)", RSS_CAP_MIB, rss));
+            }
         }
         rep.stats.transitions += ntrans;
-        rep.stats.states += nextf.len() as u64;
+        rep.stats.states += nnew;
         rep.stats.level(format!("{}:{}:depth{}:transitions", S::NAME, ex.label, depth), ntrans);
-        rep.stats.level(format!("{}:{}:depth{}:new-states", S::NAME, ex.label, depth), nextf.len() as u64);
-        all.extend(std::mem::replace(&mut frontier, nextf));
-        if frontier.is_empty() {
+        rep.stats.level(format!("{}:{}:depth{}:new-states", S::NAME, ex.label, depth), nnew);
+        for n in cur {
+            n_seen_total += 1;
+            keep(n, &mut kept, n_seen_total);
+        }
+        frontier = nextf;
+        if frontier.is_empty() || capped.is_some() {
             break;
         }
     }
-    all.extend(frontier);
-    if capped {
-        rep.stats.caps.push(format!("{}:{}: state cap {} reached", S::NAME, ex.label, ex.max_states));
+    for n in frontier {
+        n_seen_total += 1;
+        keep(n, &mut kept, n_seen_total);
     }
-    all
+    if let Some(c) = capped {
+        rep.stats.caps.push(format!("{}:{}: {c}; coverage below the cap is complete for the levels reported", S::NAME, ex.label));
+    }
+    kept
 }
 
 fn obs_digest(o: &Obs) -> u64 {
@@ -616,7 +669,8 @@ pub fn explore_scheme<S: Sch>(tier: Tier, rep: &mut Report) -> Vec<Node<S>> {
     }
     let var_lens: &[usize] = &VAR_LENS;
     let full = steps_for::<S>(&full_actions::<S>(), if tier == Tier::Quick { &VAR_LENS[..1] } else { var_lens });
-    let core = steps_for::<S>(&core_actions::<S>(), var_lens);
+    let core_lens: &[usize] = if tier == Tier::Quick { &[64, 100, 256] } else { var_lens };
+    let core = steps_for::<S>(&core_actions::<S>(), core_lens);
     let mini = steps_for::<S>(&mini_actions::<S>(), &VAR_LENS[..1]);
     let mut out: Vec<Node<S>> = vec![];
     let clone_roots = |names: Option<&[&str]>, rep: &mut Report| -> Vec<Node<S>> {
@@ -634,18 +688,22 @@ pub fn explore_scheme<S: Sch>(tier: Tier, rep: &mut Report) -> Vec<Node<S>> {
     };
     match tier {
         Tier::Quick => {
-            out.extend(bfs::<S>(roots, &full, &Explore { depth: 1, faults: true, max_states: 400_000, label: "full".into() }, rep));
+            out.extend(bfs::<S>(roots, &full, &Explore { depth: 1, faults: true, max_states: 400_000, label: "full".into(), keep_all: false }, rep));
             let ci = core_inits();
             let r2 = clone_roots(Some(&ci), rep);
-            out.extend(bfs::<S>(r2, &core, &Explore { depth: 2, faults: true, max_states: 400_000, label: "core".into() }, rep));
+            out.extend(bfs::<S>(r2, &core, &Explore { depth: 2, faults: true, max_states: 400_000, label: "core".into(), keep_all: false }, rep));
         }
         Tier::Thorough => {
-            out.extend(bfs::<S>(roots, &full, &Explore { depth: 2, faults: true, max_states: 1_500_000, label: "full".into() }, rep));
+            // full alphabet to depth 2 on one scheme per signature family (and the CombinedKey/ed25519
+            // combination that carries the known finding); depth 1 on the others, which share the code
+            let full_depth = if ["k256", "ed", "comb-ed"].contains(&S::NAME) { 2 } else { 1 };
+            let core_depth = if S::VAR_LEN { 2 } else { 3 };
+            out.extend(bfs::<S>(roots, &full, &Explore { depth: full_depth, faults: true, max_states: 2_000_000, label: "full".into(), keep_all: false }, rep));
             let r2 = clone_roots(None, rep);
-            out.extend(bfs::<S>(r2, &core, &Explore { depth: 3, faults: true, max_states: 1_500_000, label: "core".into() }, rep));
+            out.extend(bfs::<S>(r2, &core, &Explore { depth: core_depth, faults: true, max_states: 2_000_000, label: "core".into(), keep_all: false }, rep));
             let ci = core_inits();
             let r3 = clone_roots(Some(&ci), rep);
-            out.extend(bfs::<S>(r3, &mini, &Explore { depth: 5, faults: false, max_states: 1_500_000, label: "mini".into() }, rep));
+            out.extend(bfs::<S>(r3, &mini, &Explore { depth: 5, faults: false, max_states: 1_500_000, label: "mini".into(), keep_all: false }, rep));
         }
     }
     determinism_self_check::<S>(&out, &init_list, rep);
@@ -1064,7 +1122,7 @@ pub mod sr {
         // this engine
         let mut scratch = Report::default();
         let nodes: Vec<Node<S>> = roots.iter().filter_map(|r| make_init_light::<S>(r)).collect();
-        let all = bfs::<S>(nodes, &steps, &Explore { depth, faults: false, max_states: 1_000_000, label: "sr".into() }, &mut scratch);
+        let all = bfs::<S>(nodes, &steps, &Explore { depth, faults: false, max_states: 1_000_000, label: "sr".into(), keep_all: true }, &mut scratch);
         let mine: std::collections::HashSet<MState> = all.iter().map(|n| n.m.clone()).collect();
         // stateright, single-threaded BFS (level order, so a state is first reached by a shortest history)
         let model = SrModel::<S> { roots, steps, depth, ctx: Ctx::<S>::new() };
